@@ -172,7 +172,7 @@ func init() {
 			"executed twice on the real implementation: GC on (client GC on pulls, server GC before snapshots) and GC off " +
 			"(document.WithDisableGC on every replica + SnapshotDisableGC); oracle: no sync/rebuild error in either world, replicas converge, " +
 			"content(GC on)==content(GC off); non-trivial = two concurrent edits by different clients",
-		Assume: []string{"memdb backend", "small-scope bounds as listed per scenario name", "map iteration order uncontrolled; violations re-run 5x"},
+		Assume:      []string{"memdb backend", "small-scope bounds as listed per scenario name", "map iteration order uncontrolled; violations re-run 5x"},
 		QuickBudget: 170 * time.Second,
 	})
 }
